@@ -149,6 +149,47 @@ def direct(case):
             seen[mech] += 1
             if seen[mech] <= 2:
                 viol.append({"mech": mech, "msg": msg, "data": {"call": rec, "mode": mode}})
+    # one reset, two deliveries (the month's grass, then the month's feed - the use the class's own comment on population_fed
+    # describes): the energy account runs across both calls.  (The fed *count* after a second partial delivery is relative to what
+    # was still owed, on the unchanged tree too, so only the energy clauses and the fully-fed case are examined here.)
+    for e in range(max(8, case["examples"] // 3)):
+        a = rnd.choice(animals)
+        a.current_population = rnd.choice([7, 1000, 123456, float(int(a.population[0])), rnd.uniform(1, 1e7)])
+        a.population_fed = 0
+        a.reset_NE_balance()
+        req = float(a.NE_balance.kcals)
+        if req <= 0:
+            continue
+        eg, ef = a.digestion_efficiency["grass"], a.digestion_efficiency["feed"]
+        k1, k2 = rnd.choice([0.2, 0.5, 0.9, 1.0, 1.5]), rnd.choice([0.1, 0.5, 1.0, 2.0])
+        G, F0 = Food(k1 * req / eg, 0, 0), Food(0.0, 0, 0)
+        G2, F = Food(0.0, 0, 0), Food(k2 * req / ef, 0, 0)
+        herd._state["feed_calls"] = []
+        try:
+            a.feed_the_species(G, F0, is_ruminant=True)
+            a.feed_the_species(G2, F, is_ruminant=True)
+            r1, r2 = herd._state["feed_calls"][-2:]
+        finally:
+            herd._state["feed_calls"] = None
+        branches["two_deliveries_after_one_reset"] += 1
+        delivered = EG * max(r1["g0"] - r1["g1"], 0) + EF * max(r2["f0"] - r2["f1"], 0)
+        where = "direct %s %s herd=%.1f: grass %.2f x need, then feed %.2f x need after one reset" % (case["iso"], a.animal_type, a.current_population, k1, k2)
+        tol = 1e-9 * req
+        out = []
+        if delivered > req + tol:
+            out.append(("more_energy_than_required", "%s: %.8g net delivered over the two calls, required %.8g" % (where, delivered, req)))
+        if abs((req - delivered) - r2["bal"]) > 10 * tol:
+            out.append(("energy_balance_inconsistent", "%s: balance left %.8g but required %.8g - delivered %.8g" % (where, r2["bal"], req, delivered)))
+        if r1["g1"] < -tol or r2["f1"] < -tol:
+            out.append(("supply_overdrawn", "%s: pool left at grass %.6g feed %.6g" % (where, r1["g1"], r2["f1"])))
+        if delivered >= req - tol and abs(r2["fed"] - r2["herd"]) > 0.5 + 1e-9 * r2["herd"]:
+            out.append(("fully_fed_herd_not_counted_fed", "%s: requirement met over the two calls but fed %.1f of %.1f" % (where, r2["fed"], r2["herd"])))
+        if r2["fed"] > r2["herd"] + 0.5 + 1e-9 * r2["herd"]:
+            out.append(("fed_exceeds_herd", "%s: fed %.1f of a herd of %.1f" % (where, r2["fed"], r2["herd"])))
+        for mech, msg in out:
+            seen[mech] += 1
+            if seen[mech] <= 2:
+                viol.append({"mech": mech, "msg": msg, "data": {"calls": [r1, r2], "mode": "two_deliveries_after_one_reset"}})
     return {"viol": viol, "obs": {"direct": True, "calls": case["examples"], "branches": dict(branches), "examples": ex, "viol_counts": dict(seen)}}
 
 
